@@ -246,10 +246,6 @@ func c13Expect(c c13Case) c13Model {
 		if unsetErr() {
 			return m
 		}
-		if !set || null {
-			groups = valueSegs()
-			break
-		}
 		m.WordUsed = true
 		// the pattern: quoted parts are literal
 		var pat strings.Builder
@@ -269,6 +265,10 @@ func c13Expect(c c13Case) c13Model {
 		if err != nil {
 			m.Skip = "operator word is not a well-formed pattern"
 			return m
+		}
+		if !set || null {
+			groups = valueSegs()
+			break
 		}
 		for _, v := range vals {
 			rs := []rune(v)
